@@ -589,6 +589,9 @@ class Context:
             self._obligation('div_by_zero', Cmp.make(f, '=='), repr(f)[:200])
 
     def zero_division(self, x):
+        if self.opts.get('generic_divisors'):
+            self.notes.append('path abandoned: a divisor is identically zero (outside the genericity assumption)')
+            raise PathAbort('divisor identically zero')
         self.obligations.append({'kind': 'div_by_zero', 'verdict': 'sat',
                                  'what': 'exact zero denominator', 'forced': True,
                                  'model': self._input_values(self.full_model(TRUE)[1] or {})})
